@@ -147,7 +147,9 @@ def _shard(pid, tier, seed, shard, nshards, examples, wall, cases=None):
     shrink_deadline = [None]
     state = {"skipped": 0}
 
-    phases = [Phase.explicit, Phase.generate, Phase.shrink]
+    phases = [Phase.explicit, Phase.generate]
+    if getattr(prop, "SHRINK", {}).get(tier, tier != "quick"):
+        phases.append(Phase.shrink)
 
     @hypothesis.seed(seed * 1000 + shard)
     @settings(max_examples=examples, database=None, deadline=None, derandomize=False,
